@@ -284,6 +284,15 @@ def run(ctx: Any, prog: Program) -> None:
             if isinstance(c, ast.Call) and dotted(c.func) in SINKS and c.args:
                 a = c.args[0]
                 ok = (isinstance(a, ast.Call) and dotted(a.func) == 'self._resolve_path') or (isinstance(a, ast.Name) and a.id in resolved)
+                # a name produced by listing a resolved folder (os.walk / os.listdir / os.scandir / glob with root_dir) is inside it, and so is
+                # its join with that folder
+                if not ok and isinstance(a, ast.Call) and dotted(a.func) == 'os.path.join' and len(a.args) == 2 and isinstance(a.args[0], ast.Name) and a.args[0].id in resolved and isinstance(a.args[1], ast.Name):
+                    for lp_ in walk_no_nested(fn):
+                        if isinstance(lp_, ast.For) and any(isinstance(t_, ast.Name) and t_.id == a.args[1].id for t_ in ast.walk(lp_.target)) and isinstance(lp_.iter, ast.Call):
+                            li_ = lp_.iter
+                            roots_ = [x for x in li_.args[:1]] + [k.value for k in li_.keywords if k.arg in ('root_dir', 'top', 'path')]
+                            if dotted(li_.func) in ('os.listdir', 'os.scandir', 'os.walk', 'glob.iglob', 'glob.glob') and any(isinstance(r_, ast.Name) and r_.id == a.args[0].id for r_ in roots_):
+                                ok = True
                 ctx.check('C18.S2', ok, fs, c, f'`{U(c)[:70]}` reaches the file system with a path that did not come from _resolve_path', func=f'RawFileSystem.{name}', text=f'{name}: {dotted(c.func)}')
         # values derived from os.walk(resolved) stay inside the walked tree; joins of dirpath + file are inside
     for name in ('open_str', 'open_bin'):
